@@ -5,6 +5,19 @@ props = [json.loads(l) for l in open('/verif/properties.jsonl')]
 ids = [p['id'] for p in props]
 
 CLAIMS = {
+ "C04": dict(cat="other", ref="DESIGN.md section 4, C04",
+   text="Every composite optic's ordered event list is compared with its defining equation (join, Getter, Setter, BiMap, BiMapS/B/I/F through inlined helpers, lensM, iso, morphism with its nil test, shapeN Put/Get positional over N field lenses, ForShapeN, constructors). Lawfulness of the compositions follows on paper when the components are lawful; user conversions being inverse is a premise.",
+   note="trusted: go/types, go/ssa, path engine; no composite performs a store of its own except lensM (census from C01)",
+   tech="static analysis: event-list equality of straight-line SSA paths against defining equations; type-level witnesses"),
+ "C14": dict(cat="other", ref="DESIGN.md section 4, C14/C15",
+   text="Iterator protocol of every combinator of trait/seq as path constraints: nil-is-empty, eager positioning of constructors, Next protocols of takeWhile/filter/plus/join, map.Value, leaves, ForEach drain/first-error, user functions always fed the element the iterator is positioned on (phi-aware), no writes to source slices. List semantics at any nesting follows by induction on paper; the induction and user functions are not decided.",
+   note="assumes iterators are not aliased by their wrapper and are dead after Next returned false",
+   tech="static analysis: path constraints with branch polarities over SSA, loop-carried value freshness, slice-write census"),
+ "C15": dict(cat="other", ref="DESIGN.md section 4, C14/C15",
+   text="Same protocol rules for trait/pair (incl. ToSeq/FromSeq), plus key/value pairing: Key, Value, Next resolve through the same embedded iterator (method-set resolution), Key never redefined, two-argument user functions receive (X.Key(), X.Value()) of one iterator X read after X's last Next.",
+   note="assumes iterators are not aliased by their wrapper and are dead after Next returned false",
+   tech="static analysis: path constraints over SSA + method-set resolution paths on go/types"),
+
  "C01": dict(cat="other", ref="DESIGN.md section 4, C01",
    text="Address term of every unsafe dereference in optics (base + L.Offset + L.RootOffs typed *A, four sibling methods agree), Put/Get effects, census of every unsafe.Pointer conversion in all packages, who-may-write census of hseq.Type.RootOffs/StructField with the offset-accumulation term of the unfolding recursion, positional pairing of ForProductN/ForSpectrumN/NewN/FMapN on type arguments, the type-identity guard. GetPut/PutGet/PutPut and 'neighbours untouched' for every layout follow on paper (reflect offsets along value embedding = compiler offsets; typed store writes sizeof(A)).",
    note="assumes reflect reports true offsets and hseq.Type values are produced by hseq (public struct: clients are an assumption); thorough repeats under GOARCH=386/arm64",
